@@ -17,7 +17,9 @@ PROP = {
         "one_sync", "sync_position_updates_only", "sync_position", "sync_position_delete_clause_fails", "swap_breaks", "unserialised_breaks"]],
     "pre": [facts.make_step(["subscribe.stream.order", "cache.update.writeThenNotify", "subscribe.feed.calls", "subscribe.walk.order",
                              "subscribe.updateNotification.set"])],
-    "components": [su_component(""), su_component("c08", 150, 1500)],
+    "components": [su_component(""), su_component("c08", 150, 1500),
+                   # coalesce.go is anchored here too: the queue under its window hooks (C11 is its own property)
+                   {"c": "co", "quick": {"n": 1500}, "thorough": {"n": 8000, "seeds": 2}}],
     "monitor": "spec", "level": "proof",
     "trusted_base": SUB_TB + LTS_TB, "assumptions": SUB_ASSUMPTIONS,
     "manifest": {
